@@ -54,7 +54,7 @@ func customC13(r *Run) ([]Crash, error) {
 		r.Only = ""
 		iters := "30"
 		if r.Thorough() {
-			iters = "150"
+			iters = "100"
 		}
 		cr := r.runShards(rbin, procs, r.timeout(), []string{"-args", "mode=conc,iters=" + iters}, []string{"GORACE=halt_on_error=0 log_path=" + logBase})
 		r.Only = saved
